@@ -47,7 +47,7 @@ Qed.
 Lemma gen_surface : forall i p base fwd,
   o_logged (gen i p base fwd) = (match path_surface p with SLog => o_misconf (gen i p base fwd) | _ => false end) /\
   o_gauge (gen i p base fwd) = (match path_surface p with SGauge => Some (o_misconf (gen i p base fwd)) | _ => None end) /\
-  o_fwd_gauge (gen i p base fwd) = (match p with Scrape => Some fwd | _ => None end).
+  o_fwd_gauge (gen i p base fwd) = (match p with Scrape | ScrapeIdle => Some fwd | _ => None end).
 Proof. intros. unfold gen. destruct (finalize _ _). repeat split. Qed.
 
 (* ---- histories *)
@@ -170,7 +170,7 @@ Theorem run_nth_props : forall cfg evs f0 k i p,
     o_misconf o = negb fwd && (0 <? configured) /\
     o_logged o = (match path_surface p with SLog => o_misconf o | _ => false end) /\
     o_gauge o = (match path_surface p with SGauge => Some (o_misconf o) | _ => None end) /\
-    o_fwd_gauge o = (match p with Scrape => Some fwd | _ => None end) /\
+    o_fwd_gauge o = (match p with Scrape | ScrapeIdle => Some fwd | _ => None end) /\
     o_reads o = 1%N.
 Proof.
   intros cfg evs f0 k i p Hl Hn fwd configured.
